@@ -25,7 +25,7 @@ pub fn generate(tier: &str, rng: &mut Rng) -> Vec<Spec> {
         for n in 1..=(if thorough { 4 } else { 3 }) {
             for plen in 0..=n.min(3) { for pre in crate::util::all_seqs(&abc, plen) {
                 for shift in 0..=(n + 1) {
-                    let cl = if thorough { (n + 3).min(6) } else { [0, 4, 4, 5][n] };
+                    let cl = if thorough { (n + 3).min(5) } else { [0, 4, 4, 5][n] };
                     for xs in crate::util::all_seqs(&abc, cl) {
                         if kind == "bounds" && (xs[0] == 2) { continue; }
                         stride_ctr += 1;
@@ -36,6 +36,17 @@ pub fn generate(tier: &str, rng: &mut Rng) -> Vec<Spec> {
             } }
         }
     }
+    // wide windows: long monotone runs, a step back into the run, then a plateau (the deque holds dozens of
+    // candidates and must drop exactly the dominated ones), plus triangle waves
+    for n in [64usize, 100, 128] { for kind in ["max", "min", "bounds"] { for j in 0..(if thorough { 4 } else { 2 }) {
+        let up = n as i64 + 60 + 7 * j as i64; let back = [161i64, 301, 97, 33][j % 4].min(2 * up - 3);
+        let mut xs: Vec<i64> = (1..=up).map(|k| 2 * k).collect(); xs.push(back); xs.extend(std::iter::repeat(back - 1).take(n + 5));
+        let sign = if kind == "max" { -1 } else { 1 };
+        let xs: Vec<i64> = xs.iter().map(|x| sign * x).collect();
+        v.push(Spec::new(kind).with("N", n).with("pre", "").with("xs", join(&xs)));
+        let tri: Vec<i64> = (0..(3 * n as i64 + 20)).map(|k| { let p = 2 * n as i64 / 3 + j as i64; let r = k % (2 * p); if r < p { r } else { 2 * p - r } }).collect();
+        v.push(Spec::new(kind).with("N", n).with("pre", "").with("xs", join(&tri)));
+    } } }
     // random long runs, some across the rebase
     let nrand = if thorough { 3000 } else { 300 };
     for i in 0..nrand {
@@ -102,5 +113,5 @@ pub fn exec(s: &Spec, stats: &mut Stats) -> Outcome {
     let shift = if s.has("shift") { Some(s.usize("shift")) } else { None };
     stats.bump(format!("N:{}", n)); stats.bump(format!("len:{}", xs.len() / 10 * 10));
     if let Some(sh) = shift { if sh < xs.len() { stats.bump("crosses-rebase"); } else { stats.bump("injected-no-rebase"); } }
-    crate::dispatch_n!(n, run, (s.kind.as_str(), &pre, shift, &xs, stats); 1 2 3 4 5 6 7 8)
+    crate::dispatch_n!(n, run, (s.kind.as_str(), &pre, shift, &xs, stats); 1 2 3 4 5 6 7 8 64 100 128)
 }
